@@ -897,11 +897,13 @@ class World:
             return "excluded"
         n_nodes = 0
         try:
-            n_nodes = len(V.dump_tree(r.ref)[0])
+            d0 = V.dump_tree(r.ref)[0]
+            n_nodes = len(d0) + sum(len(e[-1]) for e in d0.values())
         except Exception:
             pass
         _steps["n"] = 0
-        _steps["limit"] = 50 * n_nodes + 200
+        # a legitimate operation creates each node/attribute of the tree at most a few times
+        _steps["limit"] = 4 * n_nodes + 40
         if not r.writable:
             # must be refused, nothing changes
             ok, exc = T.try_apply(r.obj, op)
@@ -945,7 +947,8 @@ class World:
             r = self.rec(op.get("rec", 0))
             if r.is_open and out not in ("skip", "excluded"):
                 self.check_view(r)
-                if self.cfg.get("nav", True):
+                self.data_ops = getattr(self, "data_ops", 0) + 1
+                if self.data_ops % int(self.cfg.get("nav_every", 3)) == 0:
                     self.check_navigation(r)
                     self.check_absent(r, T.paths_of(op) + self.cfg.get("absent", []))
         elif k == "open":
@@ -1018,7 +1021,7 @@ class IH5StoreEngine:
         rng = Rng(tag)
         g = rng["gen"]
         profile = {"C01": "overlay", "C02": "immutable", "C03": "restart", "C05": "merge"}.get(prop, "overlay")
-        cfg = {"profile": profile}
+        cfg = {"profile": profile, "nav_every": g.choice([1, 3, 3, 5])}
         nrec = 1
         if profile in ("restart", "immutable") and g.random() < 0.6:
             nrec = g.choice([2, 2, 3, 4])
